@@ -751,6 +751,9 @@ def plan(pid: str, tier: str, rng: random.Random) -> list[dict]:
     rndx = [("randx%d" % i, decorate(sp, rng2)) for i, (_, sp) in enumerate(rnd[: (60 if thorough else RANDX_QUICK)])]
     if pid in ("C02", "C03", "C05", "C06", "C09"):
         schedules(list(fam.items()) + rnd + rndx, ["fifo", "lifo", "random", "redeliver"], 6 if thorough else 2)
+        # the same engine with every delivery on a fresh worker thread (what a pool thread sees: new thread-local connections)
+        for name, spec in list(fam.items())[:: (1 if thorough else 3)] + rnd[: (30 if thorough else 5)]:
+            add(kind="policy", policy="random", spec=spec, name=name, env={"threaded": True})
         # starve every stage in turn: its messages are delivered only when nothing else is pending
         for name, spec in list(fam.items()) + rnd[: (40 if thorough else 8)]:
             for st in spec["stages"]:
